@@ -1159,16 +1159,47 @@ type failCtrl struct {
 	journal.Controller
 	mu   sync.Mutex
 	fail map[string]bool
+	// race: the next Size() probe of the journal raceSrc lets raceFn run to completion before it returns the size it
+	// saw — "another client's call completes between a caller's probe and its next tag-index call" made deterministic
+	raceSrc string
+	raceFn  func()
+	armed   int32
+	// hook: called at every GetOrCreate (inside the visitors of GetJournals / Partitions: between two critical sections
+	// of the tag index)
+	hook func(jn string)
 }
 
 func (f *failCtrl) GetOrCreate(ctx context.Context, jn string) (journal.Journal, error) {
 	f.mu.Lock()
 	bad := f.fail[jn]
+	race := f.raceSrc == jn && f.raceFn != nil
+	hook := f.hook
 	f.mu.Unlock()
+	if hook != nil {
+		hook(jn)
+	}
 	if bad {
 		return nil, fmt.Errorf("verif: injected GetOrCreate failure for %s", jn)
 	}
-	return f.Controller.GetOrCreate(ctx, jn)
+	j, err := f.Controller.GetOrCreate(ctx, jn)
+	if err == nil && race {
+		return &raceJournal{Journal: j, fc: f}, nil
+	}
+	return j, err
+}
+
+// raceJournal is the journal of failCtrl.raceSrc: its first Size() after arming runs the racing call
+type raceJournal struct {
+	journal.Journal
+	fc *failCtrl
+}
+
+func (r *raceJournal) Size() uint64 {
+	sz := r.Journal.Size()
+	if atomic.CompareAndSwapInt32(&r.fc.armed, 1, 0) {
+		r.fc.raceFn()
+	}
+	return sz
 }
 
 type callersCase struct {
@@ -1178,7 +1209,7 @@ type callersCase struct {
 var callerProgs = []string{"write0", "write1", "write2", "query", "queryOne", "getjournals", "getjournals-limit", "getjournal",
 	"partitions", "info", "truncate-dry", "truncate", "truncate-empty", "show", "describe",
 	"truncate-dry-global", "truncate-global", "truncate-dry-global-lql", "truncate-global-lql",
-	"hold", "hold", "unhold", "cursor-open", "cursor-close", "cursor-badpos", "cursor-badpos-cached", "cursor-badpos-rpc", "cursor-badquery", "cursor-toomany",
+	"truncate-race-write", "hold", "hold", "unhold", "cursor-open", "cursor-close", "cursor-badpos", "cursor-badpos-cached", "cursor-badpos-rpc", "cursor-badquery", "cursor-toomany",
 	"getjournals-fail"}
 
 // counts compares every partition's reader count with the acquisitions the case itself still holds on purpose
@@ -1411,6 +1442,83 @@ func runCallers(c callersCase, sec *vh.Section) {
 						srv.TIndex.Release(src)
 					}
 					srv.Parts.Truncate(ctx, partition.TruncateParams{TagsExpr: all, MaxSrcSize: 1 << 40}, nil)
+				case "truncate-race-write":
+					// TRUNCATE finds a partition empty; before it locks the partition another client's write completes
+					// (acquire, write, release): LockExclusively succeeds, the re-check under the lock sees the data and
+					// the deletion is given up — the partition must be neither locked nor acquired afterwards, and the
+					// next writer must get it
+					tg := fmt.Sprintf("c14=pr%d", pi)
+					src, _, err := srv.TIndex.GetOrCreateJournal(tg)
+					if err != nil {
+						return
+					}
+					srv.TIndex.Release(src)
+					raced := false
+					fc.mu.Lock()
+					fc.raceSrc = src
+					fc.raceFn = func() {
+						it := &sliceIt{evs: []model.LogEvent{{Timestamp: 5, Msg: []byte("raced")}}}
+						if err := srv.Parts.Write(ctx, tg, it, true); err == nil {
+							raced = true
+						}
+					}
+					fc.mu.Unlock()
+					atomic.StoreInt32(&fc.armed, 1)
+					srv.Parts.Truncate(ctx, partition.TruncateParams{TagsExpr: all, MaxSrcSize: 1 << 40}, nil)
+					atomic.StoreInt32(&fc.armed, 0)
+					fc.mu.Lock()
+					fc.raceSrc, fc.raceFn = "", nil
+					fc.mu.Unlock()
+					if raced {
+						res.Dist(sec, "truncate-race-write:raced")
+						// the next writer must obtain the partition (an exclusively locked one makes it spin for ever)
+						if !vh.WithTimeout(10*time.Second, func() {
+							if s2, _, err := srv.TIndex.GetOrCreateJournal(tg); err == nil {
+								srv.TIndex.Release(s2)
+							}
+						}) {
+							res.SpecFail(vh.SpecFailure{Section: "callers", Kind: "deadlock", Input: callersCase{Progs: c.Progs[:pi+1]}, Impl: "a writer spins on the partition TRUNCATE gave up deleting", Spec: "acquired", What: "after TRUNCATE gave up deleting a partition (a write completed between its emptiness probe and LockExclusively) the partition stays exclusively locked: the next writer never gets it"})
+						}
+					}
+				case "getjournals-shutdown", "partitions-shutdown":
+					// Shutdown() of the tag index arrives while a waiting Visit is between two callbacks: the next per-item
+					// section returns WrongState WITHOUT the final locked section. GetJournals (VF_DO_NOT_RELEASE) must give
+					// back everything it collected (theorems program_balanced_shutdown, callers_getjournals_owes_nothing);
+					// Partitions (auto-release) legitimately keeps what its skipped final section would have released — exactly
+					// the entries visited so far (shutdown_orphans), nothing else. Last program of a case: the index is dead afterwards.
+					write(0)
+					write(1)
+					visited := map[string]bool{}
+					fc.mu.Lock()
+					fc.hook = func(jn string) {
+						if sd, ok := srv.TIndex.(interface{ Shutdown() }); ok && len(visited) == 0 {
+							sd.Shutdown()
+						}
+						visited[jn] = true
+					}
+					fc.mu.Unlock()
+					var err error
+					if p == "getjournals-shutdown" {
+						var m map[tag.Line]journal.Journal
+						m, err = srv.Parts.GetJournals(ctx, all, 50)
+						if err == nil {
+							for _, j := range m {
+								srv.Parts.Release(j.Name())
+							}
+						}
+					} else {
+						_, err = srv.Parts.Partitions(ctx, all, 0, 10)
+					}
+					fc.mu.Lock()
+					fc.hook = nil
+					fc.mu.Unlock()
+					res.Dist(sec, fmt.Sprintf("%s:visited=%d,err=%v", p, len(visited), err != nil))
+					if p == "partitions-shutdown" && err != nil {
+						// the interrupted auto-release visit owes the entries it visited: book them as expected holds
+						for jn := range visited {
+							expected[jn]++
+						}
+					}
 				case "show":
 					srv.Exec("show partitions")
 				case "describe":
@@ -1455,7 +1563,7 @@ func runCallers(c callersCase, sec *vh.Section) {
 
 func sectionCallers(rng *vh.Rng) {
 	sec := res.Section("callers", "spec-search",
-		"sequences of the real caller programs on the in-process server (RPC Write and Query, partition.Service.GetJournals incl. limit exceeded and an injected Journals.GetOrCreate failure, GetJournal, Partitions, GetParitionInfo, cursor creation through the provider and over RPC incl. its failures (position that cannot be applied — un-cached, cached, over RPC —, unparsable query, more than 50 partitions) with and without another client holding the partitions (a direct hold, an open cached cursor), Truncate dry/real/deleting an empty partition/global pass (MAXDBSIZE exceeded) dry and real through the service and through the TRUNCATE statement, SHOW PARTITIONS, DESCRIBE PARTITION): after every program every reader count equals the holds kept on purpose (0 without them) and nothing is exclusively locked, every program returns within 30 s; non-trivial = at least 3 programs, distinct by program list")
+		"sequences of the real caller programs on the in-process server (RPC Write and Query, partition.Service.GetJournals incl. limit exceeded and an injected Journals.GetOrCreate failure, GetJournal, Partitions, GetParitionInfo, cursor creation through the provider and over RPC incl. its failures (position that cannot be applied — un-cached, cached, over RPC —, unparsable query, more than 50 partitions) with and without another client holding the partitions (a direct hold, an open cached cursor), Truncate dry/real/deleting an empty partition/global pass (MAXDBSIZE exceeded) dry and real through the service and through the TRUNCATE statement, SHOW PARTITIONS, DESCRIBE PARTITION; TRUNCATE giving a deletion up because another client's write completed between its emptiness probe and LockExclusively; as a last program Shutdown() of the tag index arriving between two callbacks of GetJournals' / Partitions' waiting Visit — GetJournals must give everything back, Partitions may keep exactly the entries it visited): after every program every reader count equals the holds kept on purpose (0 without them) and nothing is exclusively locked, every program returns within 30 s; non-trivial = at least 3 programs, distinct by program list")
 	var cases []callersCase
 	for _, f := range vh.CorpusFiles(args.Corpus) {
 		var rp struct {
@@ -1479,6 +1587,9 @@ func sectionCallers(rng *vh.Rng) {
 		}
 		if rng.Chance(1, 6) {
 			c.Progs = append(c.Progs, "getjournals-fail")
+		} else if rng.Chance(1, 4) {
+			// terminal programs: the tag index is shut down in the middle of a waiting Visit
+			c.Progs = append(c.Progs, []string{"getjournals-shutdown", "partitions-shutdown"}[rng.Intn(2)])
 		}
 		cases = append(cases, c)
 	}
